@@ -2,8 +2,13 @@ SPECIFICATION Spec
 CONSTANTS
   Cfgs <- MCCfgs
   Dials <- MCDials
-  Parts = {"reply", "url", "hdr", "hist"}
+  Parts = {"reply", "url", "hdr", "hist", "body", "urlp"}
   MaxDev = 4
+  BodyLens = {0, 1, 10, 1023, 1024, 1025, 3000, 5000}
+  BodyRBufs = {0, 1, 125, 126, 256, 1024, 4096, 4097, 8192, 65536}
+  BodySegs = {"one", "hdr|body", "hdr+1", "crlf", "mid", "hdr|512", "100|1023", "1024", "crlf|1", "1|2", "1000|1024", "2000", "hdr-40", "1023|1025"}
+  BodyKinds = {"403", "200ok", "500close", "101other"}
+  BodyURLs = {"ws", "wss"}
 CONSTRAINT Emit
-INVARIANTS InvRefines InvConnOnlyIfProven InvBadReplyIsBadHandshake InvRefusedBeforeNetwork InvKeyFresh InvFailureCloses InvSuccessOpenNoDeadline InvEveryOpUnderDeadline InvFirstHopHook
+INVARIANTS InvRefines InvConnOnlyIfProven InvBadReplyIsBadHandshake InvRefusedBeforeNetwork InvRefusedNoLookup InvBodyExact InvKeyFresh InvFailureCloses InvSuccessOpenNoDeadline InvEveryOpUnderDeadline InvFirstHopHook
 CHECK_DEADLOCK FALSE
